@@ -145,18 +145,23 @@ Qed.
 Lemma nlevels_at f fd : nth_error (fl_design fb) f = Some fd -> nlevels fb f = length (ff_levels fd).
 Proof. intros E. unfold nlevels, factor_at. now rewrite E. Qed.
 
-Lemma f1_sustain1 f : sustain_of fb f = 1.
-Proof. exact (f1_sustain fb Facts f). Qed.
+(** the implied factors are not sustained *)
+Lemma impl_sustain f : f < nf fb -> isact fb f = false -> sustain_of fb f = 1.
+Proof.
+  intros Hf Ha. destruct (nth_error (fl_design fb) f) as [fd|] eqn:Efd.
+  - apply (f1_sustain_one fb Facts f fd Efd). unfold sact. now rewrite Ha.
+  - apply nth_error_None in Efd. unfold nf in Hf. lia.
+Qed.
 
 (** [Sem.applies] on [code_sem] is [Factor.applies_to_trial] of the layout *)
 Lemma appl_lappl f t : appl f t = lappl fb f t.
 Proof.
-  unfold appl. destruct (factor_at fb f) as [fd|] eqn:Efd.
-  - unfold applies. cbn [f_derived code_factor f_sustain]. destruct (ff_window fd) as [w|] eqn:Ew.
-    + rewrite (lappl_window fb f fd w t Efd Ew (f1_sustain fb Facts f)).
-      cbn [w_start w_stride]. rewrite (f1_sustain1 f), Nat.div_1_r. reflexivity.
-    + unfold lappl, applies_at, applies_to_trial. now rewrite Efd, Ew.
-  - unfold lappl, applies_at, applies_to_trial. now rewrite Efd.
+  unfold appl. rewrite (lappl_unfold fb f t). unfold applies_to_trial.
+  destruct (factor_at fb f) as [fd|] eqn:Efd; [|reflexivity].
+  unfold applies. cbn [f_derived code_factor f_sustain]. destruct (ff_window fd) as [w|] eqn:Ew; [|reflexivity].
+  cbn [w_start w_stride]. set (g := t / sustain_of fb f).
+  replace (g + 1 - (win_start w + 1)) with (g - win_start w) by lia. f_equal.
+  destruct (Nat.leb_spec (win_start w) g), (Nat.leb_spec (win_start w + 1) (g + 1)); try reflexivity; lia.
 Qed.
 
 Lemma applies_lappl f fd t : nth_error (fl_design fb) f = Some fd -> applies (code_factor fb f fd) t = lappl fb f t.
@@ -197,35 +202,35 @@ Qed.
 (** the window of an implied factor at a trial where it applies reads only
     earlier-or-equal trials *)
 Lemma impl_window_args (q : tseq) f fd w t :
-  win_width w - 1 <= win_start w -> applies (code_factor fb f fd) t = true -> ff_window fd = Some w ->
+  sustain_of fb f = 1 -> win_width w - 1 <= win_start w -> applies (code_factor fb f fd) t = true -> ff_window fd = Some w ->
   window_args q (code_factor fb f fd) (dwin fd w) t =
   map (fun d => map (fun j => get_cell q d (t - (win_width w - 1 - j))) (seq 0 (win_width w))) (win_deps w).
 Proof.
-  intros Hws Hap Ew. unfold applies in Hap. cbn [f_derived code_factor] in Hap. rewrite Ew in Hap.
-  cbn [f_sustain code_factor w_start w_stride] in Hap. rewrite (f1_sustain1 f), Nat.div_1_r in Hap.
+  intros Hsu Hws Hap Ew. unfold applies in Hap. cbn [f_derived code_factor] in Hap. rewrite Ew in Hap.
+  cbn [f_sustain code_factor w_start w_stride] in Hap. rewrite Hsu, Nat.div_1_r in Hap.
   apply andb_true_iff in Hap. destruct Hap as [Hst _]. apply Nat.leb_le in Hst.
-  unfold window_args. cbn [f_sustain code_factor w_deps w_width dwin]. rewrite (f1_sustain1 f), Nat.div_1_r, Nat.mul_1_r.
+  unfold window_args. cbn [f_sustain code_factor w_deps w_width dwin]. rewrite Hsu, Nat.div_1_r, Nat.mul_1_r.
   apply map_ext. intros d. apply map_ext_in. intros j Hj. apply in_seq in Hj. rewrite Nat.mul_1_r.
   replace (win_width w - 1 - j <=? t) with true by (symmetry; apply Nat.leb_le; lia). reflexivity.
 Qed.
 
 (** the window only depends on the rows of the depended-on factors *)
 Lemma impl_window_ext (q q' : tseq) f fd w t :
-  win_width w - 1 <= win_start w -> applies (code_factor fb f fd) t = true -> ff_window fd = Some w ->
+  sustain_of fb f = 1 -> win_width w - 1 <= win_start w -> applies (code_factor fb f fd) t = true -> ff_window fd = Some w ->
   (forall d t', In d (win_deps w) -> t' <= t -> get_cell q d t' = get_cell q' d t') ->
   window_args q (code_factor fb f fd) (dwin fd w) t = window_args q' (code_factor fb f fd) (dwin fd w) t.
 Proof.
-  intros Hws Hap Ew H. rewrite !(impl_window_args _ f fd w t Hws Hap Ew).
+  intros Hsu Hws Hap Ew H. rewrite !(impl_window_args _ f fd w t Hsu Hws Hap Ew).
   apply map_ext_in. intros d Hd. apply map_ext. intros j. apply H; [exact Hd|lia].
 Qed.
 
 (** if the depended-on cells are levels, the window is one of the tuples of [all_args] *)
 Lemma impl_window_in (q : tseq) f fd w t :
-  win_width w - 1 <= win_start w -> applies (code_factor fb f fd) t = true -> ff_window fd = Some w ->
+  sustain_of fb f = 1 -> win_width w - 1 <= win_start w -> applies (code_factor fb f fd) t = true -> ff_window fd = Some w ->
   (forall d t', In d (win_deps w) -> t' <= t -> exists x, x < nlevels fb d /\ get_cell q d t' = Some x) ->
   In (window_args q (code_factor fb f fd) (dwin fd w) t) (all_args fb w).
 Proof.
-  intros Hws Hap Ew H. rewrite (impl_window_args q f fd w t Hws Hap Ew). unfold all_args.
+  intros Hsu Hws Hap Ew H. rewrite (impl_window_args q f fd w t Hsu Hws Hap Ew). unfold all_args.
   apply in_product_lists. intros d Hd.
   replace (win_width w) with (length (map (fun j => get_cell q d (t - (win_width w - 1 - j))) (seq 0 (win_width w)))) at 2
     by now rewrite map_length, seq_length.
@@ -257,7 +262,7 @@ Proof.
   unfold appl, cell_impl, factor_at. rewrite Efd, Ew.
   destruct (applies (code_factor fb f fd) t) eqn:Hap; [|reflexivity].
   assert (Hin : In (window_args (dec_act s) (code_factor fb f fd) (dwin fd w) t) (all_args fb w)).
-  { apply impl_window_in; try assumption. intros d t' Hd Ht'.
+  { apply impl_window_in; try assumption; [now apply impl_sustain|]. intros d t' Hd Ht'.
     pose proof (proj1 (Forall_forall _ _) Hdeps d Hd) as Hds. cbv beta in Hds.
     destruct (sact_lappl d t' Hds) as [Hda Hdl].
     rewrite (dec_act_cell s t' d ltac:(lia) (f1_act_lt fb HF1 d Hda)).
